@@ -1,17 +1,18 @@
 import AslModel.Model.Dis.A87C
 import AslModel.Lemmas.Dis87C
+import AslModel.Lemmas.Dis6800
 /-! Lemmas for the jump/call round trip of the TLCS-870 (`Model/Dis/A87C.lean` ↔ the jump forms of `Model/Dis/M87C.lean`):
 `shape_ok` decides, over all 256 first bytes, what the tables of both sides say about a jump form (format string, condition lookup in
 code87c800.c's condition table, opcode arithmetic); the `adrInt_*` lemmas are the distance arithmetic for all addresses. -/
 namespace AslModel.Dis.A87C
 open AslModel.Dis AslModel.Dis.M87C AslModel.Generated
 
-/-- per opcode byte: the format string of the jump form is `<head><symbol>h`, the printed condition is found in the assembler's
+/-- per opcode byte: the format string of the jump form is `<head><symbol>`, the printed condition is found in the assembler's
 condition table (from the index the decoder starts at) with the code that gives the opcode back, operand byte count -/
 def shapeOk (op : Nat) : Bool :=
   match shape op, form1 op with
   | some (sh, j), .plain f =>
-    f.jump == j && f.pieces == [.s (head sh), .sym, .s "h"] &&
+    f.jump == j && f.pieces == [.s (head sh), .sym] &&
     (match sh, j with
      | .jrs c, .rel5 =>
        decide (decodeCondition c Deco87C.jrsCondStart < Deco87C.conditions.length) &&
@@ -45,5 +46,225 @@ theorem adrInt_rel8 (a x : Nat) (ha : a < 0x10000) (hx : x < 256) :
   unfold adrInt
   simp only
   split <;> split <;> omega
+
+end AslModel.Dis.A87C
+
+namespace AslModel.Dis.A87C
+open AslModel.Dis AslModel.Dis.M87C AslModel.Generated
+
+/-! ### the printed jump statement through the statement parser -/
+
+theorem stripComment_clean (l : List Char) (h : ∀ c ∈ l, c ≠ ';') : stripComment l = l := by
+  unfold stripComment
+  induction l with
+  | nil => rfl
+  | cons x xs ih =>
+    have hx : (x != ';') = true := by simpa using h x (by simp)
+    simp only [List.takeWhile, hx]
+    rw [ih (fun c hc => h c (List.mem_cons_of_mem _ hc))]
+
+theorem stripComment_at (l r : List Char) (h : ∀ c ∈ l, c ≠ ';') : stripComment (l ++ ';' :: r) = l := by
+  unfold stripComment
+  induction l with
+  | nil => simp [List.takeWhile]
+  | cons x xs ih =>
+    have hx : (x != ';') = true := by simpa using h x (by simp)
+    simp only [List.cons_append, List.takeWhile, hx]
+    rw [ih (fun c hc => h c (List.mem_cons_of_mem _ hc))]
+
+theorem trimRight_clean (l : List Char) (z : Char) (hz : A6800.isBlank z = false) : trimRight (l ++ [z]) = l ++ [z] := by
+  unfold trimRight
+  simp [List.reverse_append, List.dropWhile, hz]
+
+/-- what a plain symbol name consists of -/
+theorem plainLabel_chars (s : List Char) (h : A6800.plainLabel s = true) :
+    (∀ c ∈ s, A6800.isBlank c = false ∧ c ≠ ',' ∧ c ≠ ';') ∧ ∃ l z, s = l ++ [z] := by
+  have hname : ∀ c, (A6800.isNameChar c = true ∨ A6800.isNameStart c = true) → A6800.isBlank c = false ∧ c ≠ ',' ∧ c ≠ ';' := by
+    intro c hc
+    refine ⟨?_, ?_, ?_⟩
+    · cases hb : A6800.isBlank c with
+      | false => rfl
+      | true =>
+        have : c = ' ' ∨ c = '\t' := by simpa [A6800.isBlank] using hb
+        rcases this with e | e <;> (subst e; revert hc; decide)
+    · intro e; subst e; revert hc; decide
+    · intro e; subst e; revert hc; decide
+  match s, h with
+  | c :: d :: rest, h =>
+    simp only [A6800.plainLabel, Bool.and_eq_true, List.all_eq_true] at h
+    refine ⟨?_, ?_⟩
+    · intro x hx
+      rcases List.mem_cons.mp hx with rfl | hx
+      · exact hname _ (Or.inr h.1.1)
+      · rcases List.mem_cons.mp hx with rfl | hx
+        · exact hname _ (Or.inl h.1.2)
+        · exact hname _ (Or.inl (h.2 x hx))
+    · exact ⟨(c :: d :: rest).dropLast, (c :: d :: rest).getLast (by simp), (List.dropLast_concat_getLast (by simp)).symm⟩
+
+/-- the `callv` statement does not look at the symbol table -/
+theorem parseClean_callv (env env' : A6800.Env) (s : List Char) (c : Nat) (h : fnOf (A6800.splitStmt s).1 = some (.callv, c)) :
+    parseClean env s = parseClean env' s := by
+  unfold parseClean
+  rw [h]
+  cases (A6800.splitStmt s).2 with
+  | nil => rfl
+  | cons t ts => cases ts <;> rfl
+
+end AslModel.Dis.A87C
+
+namespace AslModel.Dis.A87C
+open AslModel.Dis AslModel.Dis.M87C AslModel.Generated
+
+/-- mnemonic of a shape as the format string spells it -/
+def memoL : Shape → List Char
+  | .jrs _ => ['j', 'r', 's']
+  | .jr _ => ['j', 'r']
+  | .jp => ['j', 'p']
+  | .call => ['c', 'a', 'l', 'l']
+  | .callp => ['c', 'a', 'l', 'l', 'p']
+  | .callv _ => ['c', 'a', 'l', 'l', 'v']
+
+def condL : Shape → Option String
+  | .jrs c => some c
+  | .jr c => c
+  | _ => none
+
+/-- a condition name contains no blank, comma or semicolon -/
+def condClean (c : String) : Bool := c.toList.all (fun ch => !A6800.isBlank ch && ch != ',' && ch != ';')
+
+/-- per opcode byte: the condition name a jump form prints is clean -/
+def shapeTextOk (op : Nat) : Bool :=
+  match shape op with
+  | some (sh, _) => (match condL sh with | some c => condClean c | none => true)
+  | none => true
+
+theorem shapeText_ok : ∀ op, op < 256 → shapeTextOk op = true := by decide +kernel
+
+/-- `callv`: the head of the line up to the comment, and what the parser makes of it (vector numbers 0…15) -/
+def callvHead (n : Nat) : List Char := ("callv\t" ++ toString n ++ "\t ").toList
+
+def callvOk (n : Nat) : Bool :=
+  (head (.callv n)).toList == callvHead n ++ [';', ' '] && (callvHead n).all (fun c => c != ';') &&
+  fnOf (A6800.splitStmt (trimRight (callvHead n))).1 == some (.callv, 0) &&
+  parseClean (fun _ => none) (trimRight (callvHead n)) == some (.callv n)
+
+theorem callv_ok : ∀ n, n < 16 → callvOk n = true := by decide +kernel
+
+theorem parse_printed_callv (env : A6800.Env) (n : Nat) (hn : n < 16) (r : List Char) :
+    parseStmt env ((head (.callv n)).toList ++ r) = some (.callv n) := by
+  have h := callv_ok n hn
+  simp only [callvOk, Bool.and_eq_true, beq_iff_eq, List.all_eq_true, bne_iff_ne, ne_eq] at h
+  obtain ⟨⟨⟨h1, h2⟩, h3⟩, h4⟩ := h
+  have ht : (head (.callv n)).toList ++ r = callvHead n ++ ';' :: (' ' :: r) := by rw [h1]; simp
+  unfold parseStmt
+  rw [ht, stripComment_at _ _ h2, parseClean_callv env (fun _ => none) _ 0 h3, h4]
+
+theorem fn_jrs : fnOf ['j', 'r', 's'] = some (.jrs, 0) := by decide +kernel
+theorem fn_jr : fnOf ['j', 'r'] = some (.jr, 0) := by decide +kernel
+theorem fn_jp : fnOf ['j', 'p'] = some (.jpCall, 0xfe) := by decide +kernel
+theorem fn_call : fnOf ['c', 'a', 'l', 'l'] = some (.jpCall, 0xfc) := by decide +kernel
+theorem fn_callp : fnOf ['c', 'a', 'l', 'l', 'p'] = some (.callp, 0) := by decide +kernel
+
+/-- a statement `<memo>\t<body>` whose last character is no blank and that contains no `;` -/
+theorem parseStmt_clean (env : A6800.Env) (memo body : List Char) (hm : ∀ c ∈ memo, A6800.isBlank c = false ∧ c ≠ ';')
+    (hb : ∀ c ∈ body, A6800.isBlank c = false ∧ c ≠ ';') (hne : body ≠ []) :
+    parseStmt env (memo ++ '\t' :: body) = parseClean env (memo ++ '\t' :: body) := by
+  unfold parseStmt
+  have hs : stripComment (memo ++ '\t' :: body) = memo ++ '\t' :: body := by
+    apply stripComment_clean
+    intro c hc
+    rcases List.mem_append.mp hc with h | h
+    · exact (hm c h).2
+    · rcases List.mem_cons.mp h with rfl | h
+      · decide
+      · exact (hb c h).2
+  rw [hs]
+  obtain ⟨l, z, hlz⟩ : ∃ l z, body = l ++ [z] := ⟨body.dropLast, body.getLast hne, (List.dropLast_concat_getLast hne).symm⟩
+  have hz : A6800.isBlank z = false := (hb z (by rw [hlz]; simp)).1
+  have : memo ++ '\t' :: body = (memo ++ '\t' :: l) ++ [z] := by rw [hlz]; simp
+  rw [this, trimRight_clean _ z hz]
+
+/-- the line `<head><symbol>` of a jump form other than `callv` is parsed back to the statement with the symbol's value -/
+theorem parse_printed (env : A6800.Env) (sh : Shape) (S : List Char) (t : Nat) (hcv : ∀ n, sh ≠ .callv n)
+    (hc : ∀ c, condL sh = some c → condClean c = true)
+    (hS : A6800.plainLabel S = true) (hr : isReg16Name S = false) (he : env S = some t) :
+    parseStmt env ((head sh).toList ++ S) = some (mk sh t) := by
+  obtain ⟨hSc, l, z, hlz⟩ := plainLabel_chars S hS
+  have hSne : S ≠ [] := by rw [hlz]; simp
+  have hev : evalLabel env S = some t := by simp [evalLabel, hS, hr, he]
+  have hSb : ∀ c ∈ S, A6800.isBlank c = false := fun c h => (hSc c h).1
+  have hSn : ',' ∉ S := fun h => (hSc ',' h).2.1 rfl
+  -- with a condition: <memo>\t<cond>,<symbol>
+  have withCond : ∀ (memo : List Char) (c : String), (∀ x ∈ memo, A6800.isBlank x = false ∧ x ≠ ';') → condClean c = true →
+      A6800.splitStmt (memo ++ '\t' :: (c.toList ++ ',' :: S)) = (memo, [c.toList, S]) ∧
+      parseStmt env (memo ++ '\t' :: (c.toList ++ ',' :: S)) = parseClean env (memo ++ '\t' :: (c.toList ++ ',' :: S)) := by
+    intro memo c hm hcc
+    simp only [condClean, List.all_eq_true, Bool.and_eq_true, Bool.not_eq_true', bne_iff_ne, ne_eq] at hcc
+    have hb : ∀ x ∈ c.toList ++ ',' :: S, A6800.isBlank x = false ∧ x ≠ ';' := by
+      intro x hx
+      rcases List.mem_append.mp hx with h | h
+      · exact ⟨(hcc x h).1.1, (hcc x h).2⟩
+      · rcases List.mem_cons.mp h with rfl | h
+        · exact ⟨by decide, by decide⟩
+        · exact ⟨(hSc x h).1, (hSc x h).2.2⟩
+    refine ⟨?_, parseStmt_clean env memo _ hm hb (by simp)⟩
+    rw [A6800.splitStmt_operand memo _ (fun x hx => (hm x hx).1) (fun x hx => (hb x hx).1) (by simp)]
+    have hcn : ',' ∉ c.toList := fun h => (hcc ',' h).1.2 rfl
+    rw [A6800.splitComma_append _ _ hcn, A6800.splitComma_noComma _ hSn]
+  have noCond : ∀ (memo : List Char), (∀ x ∈ memo, A6800.isBlank x = false ∧ x ≠ ';') →
+      A6800.splitStmt (memo ++ '\t' :: S) = (memo, [S]) ∧
+      parseStmt env (memo ++ '\t' :: S) = parseClean env (memo ++ '\t' :: S) := by
+    intro memo hm
+    have hb : ∀ x ∈ S, A6800.isBlank x = false ∧ x ≠ ';' := fun x h => ⟨(hSc x h).1, (hSc x h).2.2⟩
+    refine ⟨?_, parseStmt_clean env memo _ hm hb hSne⟩
+    rw [A6800.splitStmt_operand memo _ (fun x hx => (hm x hx).1) hSb hSne, A6800.splitComma_noComma _ hSn]
+  cases sh with
+  | jrs c =>
+    have hh : (head (.jrs c)).toList ++ S = ['j', 'r', 's'] ++ '\t' :: (c.toList ++ ',' :: S) := by
+      simp [head, String.toList_append]
+    obtain ⟨h1, h2⟩ := withCond ['j', 'r', 's'] c (by decide) (hc c rfl)
+    rw [hh, h2]
+    unfold parseClean
+    rw [h1]
+    simp only [fn_jrs, hev, Option.map_some, String.ofList_toList, mk]
+  | jr c =>
+    cases c with
+    | none =>
+      have hh : (head (.jr none)).toList ++ S = ['j', 'r'] ++ '\t' :: S := by simp [head]
+      obtain ⟨h1, h2⟩ := noCond ['j', 'r'] (by decide)
+      rw [hh, h2]
+      unfold parseClean
+      rw [h1]
+      simp only [fn_jr, hev, Option.map_some, mk]
+    | some c =>
+      have hh : (head (.jr (some c))).toList ++ S = ['j', 'r'] ++ '\t' :: (c.toList ++ ',' :: S) := by
+        simp [head, String.toList_append]
+      obtain ⟨h1, h2⟩ := withCond ['j', 'r'] c (by decide) (hc c rfl)
+      rw [hh, h2]
+      unfold parseClean
+      rw [h1]
+      simp only [fn_jr, hev, Option.map_some, String.ofList_toList, mk]
+  | jp =>
+    have hh : (head .jp).toList ++ S = ['j', 'p'] ++ '\t' :: S := by simp [head]
+    obtain ⟨h1, h2⟩ := noCond ['j', 'p'] (by decide)
+    rw [hh, h2]
+    unfold parseClean
+    rw [h1]
+    simp [fn_jp, hev, mk]
+  | call =>
+    have hh : (head .call).toList ++ S = ['c', 'a', 'l', 'l'] ++ '\t' :: S := by simp [head]
+    obtain ⟨h1, h2⟩ := noCond ['c', 'a', 'l', 'l'] (by decide)
+    rw [hh, h2]
+    unfold parseClean
+    rw [h1]
+    simp [fn_call, hev, mk]
+  | callp =>
+    have hh : (head .callp).toList ++ S = ['c', 'a', 'l', 'l', 'p'] ++ '\t' :: S := by simp [head]
+    obtain ⟨h1, h2⟩ := noCond ['c', 'a', 'l', 'l', 'p'] (by decide)
+    rw [hh, h2]
+    unfold parseClean
+    rw [h1]
+    simp only [fn_callp, hev, Option.map_some, mk]
+  | callv n => exact absurd rfl (hcv n)
 
 end AslModel.Dis.A87C
